@@ -26,7 +26,41 @@ func (m *ForwardMetadata) Validate() error {
 	return nil
 }
 
+// hasNilStrategy reports whether a route, or any route nested in it, carries a strategy without its payload.
+// jsonpb leaves the payload nil when the memo says e.g. "pool": null; protobuf binary decoding never does.
+func hasNilStrategy(route *Route) bool {
+	switch strategy := route.Strategy.(type) {
+	case *Route_Pool:
+		return strategy.Pool == nil
+	case *Route_Series:
+		if strategy.Series == nil {
+			return true
+		}
+		for i := range strategy.Series.Routes {
+			if hasNilStrategy(&strategy.Series.Routes[i]) {
+				return true
+			}
+		}
+	case *Route_Parallel:
+		if strategy.Parallel == nil {
+			return true
+		}
+		for i := range strategy.Parallel.Routes {
+			if hasNilStrategy(&strategy.Parallel.Routes[i]) {
+				return true
+			}
+		}
+	}
+	return false
+}
+
 func (m *SwapMetadata) Validate() error {
+	if m.Route == nil {
+		return fmt.Errorf("route cannot be empty")
+	}
+	if hasNilStrategy(m.Route) {
+		return fmt.Errorf("route strategy cannot be null")
+	}
 	if err := m.Route.Validate(); err != nil {
 		return err
 	}
